@@ -62,7 +62,7 @@ func runC14(c *core.Ctx) {
 		ks = []int{1, 2, 3, 4, 5, 6, 7, 8, 9, 12, 16, 17, 33, 64}
 	}
 	n := 0
-	for _, t := range dyn.Types[:dyn.NBuiltin] {
+	for _, t := range dyn.ElemTypes() {
 		for ch := 1; ch <= 8; ch++ {
 			for _, k := range ks {
 				for _, w := range windowClasses(k) {
@@ -83,7 +83,7 @@ func runC14(c *core.Ctx) {
 	// parent's channel: after writes, sample appends, in-place and growing
 	// buffer appends
 	hn := 0
-	for _, t := range dyn.Types[:dyn.NBuiltin] {
+	for _, t := range dyn.ElemTypes() {
 		for ch := 1; ch <= 4; ch++ {
 			for _, shape := range [][2]int{{0, 3}, {2, 4}, {3, 3}, {1, 6}} {
 				hn++
